@@ -5,6 +5,7 @@ CONSTANTS
   Classes = {"MA", "MB"}
   InitStreams <- InitStreamsOne
   ApplyCfgs <- ApplyCfgsMap
+  Lifts = {"none"}
   Separator = TRUE
   Hist = TRUE
   Alphabet <- AlphabetMap
